@@ -119,6 +119,19 @@ CHECKS["C10"] = dict(
          "contract stub. Stream lengths above the bound are outside the claim.",
     design="DESIGN.md section 4 (C10)")
 
+CHECKS["C09"] = dict(
+    engine="E1 nbsym on roll_block/roll_block_valid/dmt_block/dmt_block_valid; E2 on the real FilterbankBlock.dedisperse/dmt_transform, compute_dmdelays (exact reals, object arrays) and FilReader.read_dedisp_block; z3",
+    technique="symbolic execution of numba's typed IR of the rotation/DM-time kernels with symbolic data and symbolic integer shifts (paths forked per shift value), composed with the real block-method bytecode; real compute_dmdelays over exact symbolic reals; z3 decides per path; models replayed on the compiled kernels/blocks",
+    text="Every dedispersion entry point is reduced to the index map it applies: kernels are executed from their typed IR for arbitrary data and "
+         "every integer shift vector in a stated range; the real dedisperse/dmt_transform bytecode runs on top of the interpreted kernels with a "
+         "symbolic delay table and must output x[c,(t+delay_c)] (cyclic for rotations, windowed for the valid variants) over the length its header "
+         "declares; read_dedisp_block runs on a symbolic file for small concrete shapes with symbolic samples; the streamed path is C06. The delay "
+         "law itself: the real compute_dmdelays is executed over exact reals (zero at the reference, odd in DM, monotone in frequency, within half "
+         "a sample of the formula) and Header.get_dmdelays' reference selection is checked.",
+    note="Shapes up to 3x3/2x4, shifts within +-(ncols+1); float32 evaluation of the delay formula near rounding boundaries is outside the claim; "
+         "f^-2 is abstracted by an order-reversing positive real.",
+    design="DESIGN.md section 4 (C09)")
+
 NOT_APPLICABLE = {}
 
 PENDING = "check not built yet in this round (see DESIGN.md section 8 for the build order); no claim is made"
